@@ -46,7 +46,11 @@ type c19Agg struct {
 	Pct  []float64
 }
 
-func c19Aggs() []c19Agg {
+func c19Aggs() []c19Agg { return c19AggsOn("f", "$._data") }
+
+// c19AggsOn: the aggregation instances reading the value field and the property document under the given paths
+// (the current element, or an element marked earlier: $e.f, $e._data).
+func c19AggsOn(fieldPath, dataPath string) []c19Agg {
 	mk := func(name, kind string, a *gripql.Aggregate) c19Agg {
 		a.Name = name
 		return c19Agg{Name: name, Kind: kind, A: a}
@@ -54,20 +58,20 @@ func c19Aggs() []c19Agg {
 	var out []c19Agg
 	out = append(out, mk("count", "count", &gripql.Aggregate{Aggregation: &gripql.Aggregate_Count{Count: &gripql.CountAggregation{}}}))
 	for _, sz := range []int{0, 1, 2} {
-		a := mk(fmt.Sprintf("term-size%d", sz), "term", &gripql.Aggregate{Aggregation: &gripql.Aggregate_Term{Term: &gripql.TermAggregation{Field: "f", Size: uint32(sz)}}})
+		a := mk(fmt.Sprintf("term-size%d", sz), "term", &gripql.Aggregate{Aggregation: &gripql.Aggregate_Term{Term: &gripql.TermAggregation{Field: fieldPath, Size: uint32(sz)}}})
 		a.Size = sz
 		out = append(out, a)
 	}
 	for _, iv := range []int{1, 2, 5} {
-		a := mk(fmt.Sprintf("hist-iv%d", iv), "histogram", &gripql.Aggregate{Aggregation: &gripql.Aggregate_Histogram{Histogram: &gripql.HistogramAggregation{Field: "f", Interval: uint32(iv)}}})
+		a := mk(fmt.Sprintf("hist-iv%d", iv), "histogram", &gripql.Aggregate{Aggregation: &gripql.Aggregate_Histogram{Histogram: &gripql.HistogramAggregation{Field: fieldPath, Interval: uint32(iv)}}})
 		a.Iv = float64(iv)
 		out = append(out, a)
 	}
-	p := mk("pct", "percentile", &gripql.Aggregate{Aggregation: &gripql.Aggregate_Percentile{Percentile: &gripql.PercentileAggregation{Field: "f", Percents: []float64{0, 25, 50, 100}}}})
+	p := mk("pct", "percentile", &gripql.Aggregate{Aggregation: &gripql.Aggregate_Percentile{Percentile: &gripql.PercentileAggregation{Field: fieldPath, Percents: []float64{0, 25, 50, 100}}}})
 	p.Pct = []float64{0, 25, 50, 100}
 	out = append(out, p)
-	out = append(out, mk("fields", "field", &gripql.Aggregate{Aggregation: &gripql.Aggregate_Field{Field: &gripql.FieldAggregation{Field: "$._data"}}}))
-	out = append(out, mk("type", "type", &gripql.Aggregate{Aggregation: &gripql.Aggregate_Type{Type: &gripql.TypeAggregation{Field: "f"}}}))
+	out = append(out, mk("fields", "field", &gripql.Aggregate{Aggregation: &gripql.Aggregate_Field{Field: &gripql.FieldAggregation{Field: dataPath}}}))
+	out = append(out, mk("type", "type", &gripql.Aggregate{Aggregation: &gripql.Aggregate_Type{Type: &gripql.TypeAggregation{Field: fieldPath}}}))
 	return out
 }
 
@@ -75,6 +79,8 @@ type c19Worker struct {
 	multisets [][]int
 	aggs      []c19Agg
 	combos    [][]int // indexes into aggs (singles first, then pairs)
+	viaEdge   bool    // the variant of item() in progress (items run one at a time in a worker)
+	aggsE     []c19Agg
 }
 
 func newC19Worker(tier string) *c19Worker {
@@ -337,9 +343,23 @@ func (w *c19Worker) Item(idx int, emit func(vf.Violation), st sweep.Stats, sampl
 	// "for any traversal feeding aggregate()": the same rows arriving through a mark/jump construct (whose
 	// jump condition never holds, so every row passes once) bring the loop's signal travelers with them
 	w.item(idx, false, true, emit, st, sample)
+	// ... and rows whose summarised element is not the current one: the values sit on edges, each edge is
+	// marked, the traversal moves on to the far vertex and aggregates over the mark ($e.f). Nothing but the
+	// aggregation reads the marked step, so whether its properties are loaded is the planner's decision.
+	w.viaEdge = true
+	w.item(idx, false, false, emit, st, sample)
+	w.viaEdge = false
 }
 
 func (w *c19Worker) item(idx int, reversed, viaLoop bool, emit func(vf.Violation), st sweep.Stats, sample func(string)) {
+	viaEdge := w.viaEdge
+	aggSet := w.aggs
+	if viaEdge {
+		if w.aggsE == nil {
+			w.aggsE = c19AggsOn("$e.f", "$e._data")
+		}
+		aggSet = w.aggsE
+	}
 	ms := w.multisets[idx]
 	if reversed {
 		ms = append([]int{}, ms...)
@@ -356,10 +376,19 @@ func (w *c19Worker) item(idx int, reversed, viaLoop bool, emit func(vf.Violation
 		if !c19Vals[vi].Missing {
 			d["f"] = c19Vals[vi].V
 		}
+		if viaEdge {
+			gi.AddVertex([]*gdbi.Vertex{{ID: fmt.Sprintf("s%d", n), Label: "S", Data: map[string]any{}, Loaded: true}, {ID: fmt.Sprintf("t%d", n), Label: "T", Data: map[string]any{}, Loaded: true}})
+			gi.AddEdge([]*gdbi.Edge{{ID: fmt.Sprintf("e%d", n), From: fmt.Sprintf("s%d", n), To: fmt.Sprintf("t%d", n), Label: "x", Data: d, Loaded: true}})
+			continue
+		}
 		gi.AddVertex([]*gdbi.Vertex{{ID: fmt.Sprintf("v%d", n), Label: "L", Data: d, Loaded: true}})
 	}
 	// the rows the aggregation is given: V() itself must return the vertices
-	base := qrun.Run(gi.Compiler(), gripql.V().Statements, 20*time.Second)
+	baseQ := gripql.V()
+	if viaEdge {
+		baseQ = gripql.E().As("e").Out()
+	}
+	base := qrun.Run(gi.Compiler(), baseQ.Statements, 20*time.Second)
 	if len(base.Rows) != len(ms) {
 		emit(vf.Violation{Sig: "fixture|V()-does-not-return-the-stored-vertices", Detail: w.Describe(idx), Replay: w.Describe(idx)})
 		return
@@ -369,10 +398,13 @@ func (w *c19Worker) item(idx int, reversed, viaLoop bool, emit func(vf.Violation
 		var aggs []*gripql.Aggregate
 		var names []string
 		for _, i := range combo {
-			aggs = append(aggs, w.aggs[i].A)
-			names = append(names, w.aggs[i].Name)
+			aggs = append(aggs, aggSet[i].A)
+			names = append(names, aggSet[i].Name)
 		}
 		q := gripql.V().Aggregate(aggs)
+		if viaEdge {
+			q = gripql.E().As("e").Out().Aggregate(aggs)
+		}
 		if viaLoop {
 			q = gripql.V()
 			q.Statements = append(q.Statements,
@@ -388,6 +420,9 @@ func (w *c19Worker) item(idx int, reversed, viaLoop bool, emit func(vf.Violation
 		}
 		if viaLoop {
 			desc = "V().mark(a).jump(a, never).aggregate(" + strings.Join(names, ",") + ") over " + w.Describe(idx)
+		}
+		if viaEdge {
+			desc = "E().as(e).out().aggregate(" + strings.Join(names, ",") + " over $e) with the values on the edges: " + w.Describe(idx)
 		}
 		if res.CompileErr != nil {
 			emit(vf.Violation{Sig: "rejected|" + strings.Join(names, "+"), Detail: desc + ": " + res.CompileErr.Error(), Replay: desc})
